@@ -8,6 +8,11 @@ pub const CORPUS_README: &str = include_str!("../../corpus/readme_exprs.txt");
 /// Expressions named in the property records and found while probing (deviations and their
 /// conforming neighbours).
 pub const CORPUS_EXTRA: &[&str] = &[
+    "v(?-i)[2]/*.rs",
+    "(?i)[a]/b/*",
+    "a(?i)[b]c/**/*.txt",
+    "x/(?-i)[y]/z*",
+    "(?i)(?-i)[q]/**",
     "{a,a/b}/*",
     "{a/b,a}/*.txt",
     "{src,src/lib}/**/*.rs",
